@@ -238,7 +238,12 @@ pub struct Template {
     /// determine the end of the current template record and the start of the next.
     pub field_count: u16,
     /// Template Fields.
-    #[nom(Count = "field_count")]
+    // A field specifier takes 4 bytes: a count the input cannot hold is an error before any
+    // space is reserved for it.
+    #[nom(
+        ErrorIf = "usize::from(field_count).saturating_mul(4) > i.len()",
+        Count = "field_count"
+    )]
     pub fields: Vec<TemplateField>,
 }
 
@@ -251,10 +256,16 @@ pub struct OptionsTemplate {
     /// This field gives the length (in bytes) of any Options field definitions that are contained in this options template
     pub options_length: u16,
     /// Options Scope Fields
-    #[nom(Count = "(options_scope_length / 4) as usize")]
+    #[nom(
+        ErrorIf = "usize::from(options_scope_length / 4).saturating_mul(4) > i.len()",
+        Count = "(options_scope_length / 4) as usize"
+    )]
     pub scope_fields: Vec<OptionsTemplateScopeField>,
     /// Options Fields
-    #[nom(Count = "(options_length / 4) as usize")]
+    #[nom(
+        ErrorIf = "usize::from(options_length / 4).saturating_mul(4) > i.len()",
+        Count = "(options_length / 4) as usize"
+    )]
     pub option_fields: Vec<TemplateField>,
 }
 
